@@ -83,7 +83,7 @@ def layers(prop, tier):
             if meas != 'OVERLAP' and (k, r) != (3, 2):
                 ts = ts[::3]
             for t in ts:
-                for op in ('>=', '>', '='):
+                for op in (('>=', '>', '=') if (k, r) == (3, 2) else ('>=',)):
                     for lo in range(0, nsc, per):
                         jobs.append({'prop': prop, 'k': k, 'r': r, 'lo': lo, 'hi': min(lo + per, nsc),
                                      'meas': meas, 't': t, 'op': op, 'ae': True, 'pres': pres})
